@@ -23,7 +23,7 @@ pub fn def() -> MonitorDef {
 
 fn plan(tier: Tier, _seed: u64) -> Plan {
 	Plan {
-		cases: tier.pick(6, 48),
+		cases: tier.pick(8, 48),
 		shards: 6,
 		case_timeout_s: 900,
 		level: "exploration",
@@ -39,7 +39,7 @@ fn plan(tier: Tier, _seed: u64) -> Plan {
 }
 
 fn finalize(_t: Tier, _p: &Plan, rep: &mut Report) {
-	for k in ["responses_200", "responses_404", "responses_400", "servers_best", "servers_fast", "responses_with_content_encoding_gzip", "responses_with_content_encoding_br"] {
+	for k in ["responses_200", "responses_404", "responses_400", "servers_best", "servers_fast", "responses_with_content_encoding_gzip", "responses_with_content_encoding_br", "servers_with_override_and_transform"] {
 		if rep.counter(k) == 0 {
 			rep.inconclusive(&format!("nothing observed for {k}"));
 		}
@@ -66,6 +66,36 @@ struct Served {
 	id: String,
 	ts: TileSet,
 	container: &'static str,
+	/// `serve --flip-y / --swap-xy` (flip applied first): the server exposes the image of every stored tile
+	flip: bool,
+	swap: bool,
+}
+impl Served {
+	fn img(&self, k: Key) -> Key {
+		let m = ((1u64 << k.0) - 1) as u32;
+		let (mut x, mut y) = (k.1, k.2);
+		if self.flip {
+			y = m - y;
+		}
+		if self.swap {
+			std::mem::swap(&mut x, &mut y);
+		}
+		(k.0, x, y)
+	}
+	fn pre(&self, k: &Key) -> Option<Key> {
+		let m = ((1u64 << k.0) - 1) as u32;
+		let (mut x, mut y) = (k.1, k.2);
+		if x > m || y > m {
+			return None;
+		}
+		if self.swap {
+			std::mem::swap(&mut x, &mut y);
+		}
+		if self.flip {
+			y = m - y;
+		}
+		Some((k.0, x, y))
+	}
 }
 
 fn accept_encoding(rng: &mut Rng) -> (Option<String>, Vec<String>) {
@@ -100,17 +130,40 @@ fn accept_encoding(rng: &mut Rng) -> (Option<String>, Vec<String>) {
 fn run_case(cx: &CaseCtx, rep: &mut Report) {
 	let mut rng = cx.rng();
 	let fast = cx.case % 2 == 1;
-	let group = (cx.case / 2) % 3;
+	let group = (cx.case / 2) % 4;
 	let dir = cx.fresh_dir("c05");
 	// fixtures
 	let specs: Vec<(&'static str, TileFormat, Comp)> = match group {
 		0 => vec![("versatiles", TileFormat::PBF, Comp::None), ("versatiles", TileFormat::PBF, Comp::Gzip), ("versatiles", TileFormat::PBF, Comp::Brotli), ("versatiles", TileFormat::JSON, Comp::Gzip)],
 		1 => vec![("versatiles", TileFormat::PNG, Comp::None), ("versatiles", TileFormat::JPG, Comp::Gzip), ("versatiles", TileFormat::WEBP, Comp::Brotli), ("versatiles", TileFormat::BIN, Comp::Brotli), ("versatiles", TileFormat::AVIF, Comp::None)],
+		3 => vec![("mislabelled-directory", TileFormat::PBF, if cx.case % 4 < 2 { Comp::Gzip } else { Comp::Brotli }), ("mislabelled-directory", TileFormat::JSON, Comp::Gzip)],
 		_ => vec![("mbtiles", TileFormat::PBF, Comp::Gzip), ("pmtiles", TileFormat::PNG, Comp::None), ("pmtiles", TileFormat::PBF, Comp::Brotli), ("tar", TileFormat::PBF, Comp::Gzip), ("directory", TileFormat::GEOJSON, Comp::Brotli), ("mbtiles", TileFormat::WEBP, Comp::None)],
 	};
 	let mut served: Vec<Served> = vec![];
 	let mut args: Vec<String> = vec![];
+	// group 3: tiles stored compressed under names without a compression suffix, served with
+	// --override-input-compression, alone and together with the transform flags
+	let combo = if group != 3 { 0 } else if cx.case % 2 == 0 { 1 + (cx.case / 8) % 3 } else { (cx.case / 8) % 4 };
+	let (flip, swap) = (combo & 1 == 1, combo & 2 == 2);
 	for (i, (container, f, c)) in specs.iter().enumerate() {
+		if *container == "mislabelled-directory" {
+			if i > 0 && *c != specs[0].2 {
+				continue; // one override for the whole server
+			}
+			let opts = GenOpts { max_tiles: 60, max_level: 31, formats: vec![(*f, *c)], really_compress: true, ..Default::default() };
+			let ts = gen::gen_tileset(&mut rng, &opts);
+			let path = dir.join(format!("s{i}")).join("tiles_dir");
+			let mut named = ts.clone();
+			named.comp = Comp::None; // file names say "uncompressed", the bytes are not
+			if let Err(e) = crate::codec::idir::encode(&named, &path, &crate::codec::idir::EncOpts { meta_name: "tiles.json", no_meta: false, stray_files: false, alt_spellings: false }) {
+				rep.inconclusive(&format!("fixture write failed: {e}"));
+				return;
+			}
+			let id = format!("src{i}");
+			args.push(format!("[{id}]{}", path.display()));
+			served.push(Served { id, ts, container: "directory", flip, swap });
+			continue;
+		}
 		let opts = GenOpts { max_tiles: 60, max_level: 31, formats: vec![(*f, *c)], really_compress: true, ..Default::default() };
 		let ts = gen::gen_tileset(&mut rng, &opts);
 		let sub = dir.join(format!("s{i}"));
@@ -126,10 +179,24 @@ fn run_case(cx: &CaseCtx, rep: &mut Report) {
 		}
 		let id = format!("src{i}");
 		args.push(format!("[{id}]{}", path.display()));
-		served.push(Served { id, ts, container });
+		served.push(Served { id, ts, container, flip: false, swap: false });
 	}
 	if fast {
 		args.push("--fast".into());
+	}
+	if group == 3 {
+		args.push("--override-input-compression".into());
+		args.push(if specs[0].2 == Comp::Gzip { "gzip" } else { "brotli" }.into());
+		if flip {
+			args.push("--flip-y".into());
+		}
+		if swap {
+			args.push("--swap-xy".into());
+		}
+		rep.count("servers_with_override_input_compression", 1);
+		if flip || swap {
+			rep.count("servers_with_override_and_transform", 1);
+		}
 	}
 	cx.progress(&format!("server group {group} fast={fast}"));
 	let mut server = match Server::start(&args, &dir) {
@@ -148,7 +215,7 @@ fn run_case(cx: &CaseCtx, rep: &mut Report) {
 		}
 		let s = &served[n % served.len()];
 		let keys: Vec<Key> = s.ts.tiles.keys().cloned().collect();
-		let k = *rng.pick(&keys);
+		let k = s.img(*rng.pick(&keys));
 		let lim = ((1u64 << k.0) - 1) as u64;
 		// request form
 		#[derive(PartialEq, Debug)]
@@ -159,7 +226,16 @@ fn run_case(cx: &CaseCtx, rep: &mut Report) {
 			Lenient(Option<Key>),
 		}
 		let ext = *rng.pick(&["", "", ".png", ".pbf", ".jpg", ".xyz", ".json"]);
-		let (path, expect): (String, Expect) = match rng.below(14) {
+		let (path, expect): (String, Expect) = match rng.below(15) {
+			14 => {
+				// percent-encoded octets in the coordinate part: a server may or may not decode them; a 200 must
+				// then carry the tile of the decoded coordinate
+				match rng.below(3) {
+					0 => (format!("{}/%3{}/{}", k.0, k.1 % 10, k.2), Expect::Lenient(if k.1 < 10 { Some(k) } else { None })),
+					1 => (format!("{}/{}%2F{}", k.0, k.1, k.2), Expect::Lenient(Some(k))),
+					_ => (format!("{}%2f{}%2f{}", k.0, k.1, k.2), Expect::Lenient(Some(k))),
+				}
+			}
 			0..=4 => (format!("{}/{}/{}{ext}", k.0, k.1, k.2), Expect::Canonical(k)),
 			5 => {
 				let (x, y) = ((k.1 as u64 + rng.below(3)).min(lim) as u32, (k.2 as u64 + rng.below(3)).min(lim) as u32);
@@ -208,7 +284,7 @@ fn run_case(cx: &CaseCtx, rep: &mut Report) {
 		};
 		let r = http::get(server.port, &target, &headers);
 		rep.eval();
-		let witness = |extra: serde_json::Value| json!({"request": target, "accept_encoding": ae, "mode": if fast {"fast"} else {"best"}, "container": s.container, "tile_format": format!("{:?}", s.ts.format), "stored_compression": s.ts.comp.name(), "status": r.status, "response_headers": r.headers, "detail": extra});
+		let witness = |extra: serde_json::Value| json!({"request": target, "accept_encoding": ae, "mode": if fast {"fast"} else {"best"}, "server_args": args.iter().filter(|a| a.starts_with("--")).cloned().collect::<Vec<_>>(), "container": s.container, "tile_format": format!("{:?}", s.ts.format), "stored_compression": s.ts.comp.name(), "status": r.status, "response_headers": r.headers, "detail": extra});
 		if !r.complete {
 			bad += 1;
 			let alive = server.alive();
@@ -225,7 +301,7 @@ fn run_case(cx: &CaseCtx, rep: &mut Report) {
 			_ => rep.count("responses_other", 1),
 		}
 		rep.nontrivial(fnv(format!("{target}|{ae:?}|{fast}").as_bytes()));
-		let stored = |k: &Key| s.ts.tiles.get(k);
+		let stored = |k: &Key| s.pre(k).and_then(|p| s.ts.tiles.get(&p));
 		let mut check_200 = |k: &Key, rep: &mut Report| {
 			let Some(tile) = stored(k) else {
 				rep.violation("status|200-for-absent-tile", "200 although the source holds no tile at the coordinate", witness(json!({"coordinate": format!("{k:?}")})));
